@@ -26,6 +26,19 @@ DIV_FREE = {
 CHECKED_DIV_NAMES = {"checked_div", "checked_div_euclid", "checked_rem_euclid", "checked_div_rem_euclid"}
 
 
+
+# C16 asks a different question of the guard rules than C14 does: not "is the guard there in release builds" but "do the
+# profiles agree".  With this switch on, a debug-only assertion counts as a guard; a finding that disappears then exists only
+# because the guard is debug-only, i.e. the dev build panics where the release build computes on (props.profile_diff).
+COUNT_DEBUG_GUARDS = [False]
+
+
+def _debug_only_panic(b, blk):
+    if COUNT_DEBUG_GUARDS[0]:
+        return False
+    return any(m.startswith("debug_assert") for ms in tests.panic_macros(b, blk) for m in ms)
+
+
 def _is_div_family_body(b):
     if b.path in DIV_FREE:
         return True
@@ -101,7 +114,7 @@ ACCESSOR_NAMES = {
 def check_div_guards(ctx, res, config="all"):
     facts = ctx.facts(config)
     fam = [b for b in facts.bodies if _is_div_family_body(b)]
-    n_guard = n_fwd = 0
+    n_guard = n_fwd = n_unguarded = 0
     leaves = []
     for b in fam:
         tl, atoms = tests_of(b)
@@ -111,7 +124,7 @@ def check_div_guards(ctx, res, config="all"):
         for t, ztgt, nz in zero_edges(b, 2, tl, atoms):
             if fate(b, ztgt) != "panic":
                 continue
-            if any(m.startswith("debug_assert") for ms in tests.panic_macros(b, ztgt) for m in ms):
+            if _debug_only_panic(b, ztgt):
                 continue
             # returns must pass the test, except along "the divisor does not fit the scalar type" edges
             # (`None` of to_uN/to_iN(divisor)), on which the divisor is necessarily non-zero
@@ -162,6 +175,7 @@ def check_div_guards(ctx, res, config="all"):
         # primitive division of scalars (`*self % v`) has a compiler-inserted zero check (Assert DivisionByZero):
         # accept only if an explicit guard-or-forward was not needed because the divisor is a primitive and every
         # path divides with the compiler check -- not used by this crate; report instead.
+        n_unguarded += 1
         res.fail(
             Finding(
                 "R3a-div-unguarded",
@@ -175,7 +189,9 @@ def check_div_guards(ctx, res, config="all"):
     res.count("R3a division leaves with own zero guard", n_guard)
     if len(fam) < 370:
         res.fail(Finding("R3a-anchor-lost", "div-family", "only %d division-family bodies found (floor 370)" % len(fam), file="src/biguint/division.rs", line=0))
-    if n_guard < 19:
+    # the floor is about the rule still finding its instances: a leaf that lost its guard is reported by name above and
+    # still counts as found
+    if n_guard + n_unguarded < 19:
         res.fail(Finding("R3a-anchor-lost", "div-leaves", "only %d division leaves with their own zero guard found (floor 19)" % n_guard, file="src/biguint/division.rs", line=0))
     res.clause("R3a-div: every division-family function guards a zero divisor with a (release-mode) panic before any division work, or forwards the divisor")
     return leaves
@@ -406,6 +422,21 @@ def _semantic_alternatives(t, lit, b, facts):
             return (next(iter(others)), None) if len(others) == 1 and hold not in others else None
     if c is None:
         return None
+    # `x.sign == Minus` / `x.sign != Minus` written as a comparison with a Sign constant
+    if name in ("is_negative", "is_zero", "is_positive") and (c.kind == "call" and c.name in ("eq", "ne") and len(c.args) == 2 or c.kind == "cmp" and c.op in ("Eq", "Ne")):
+        want = {"is_negative": "Minus", "is_zero": "NoSign", "is_positive": "Plus"}[name]
+        a0, a1 = (c.args[0], c.args[1]) if c.kind == "call" else (c.a, c.b)
+        is_eq = (c.name == "eq") if c.kind == "call" else (c.op == "Eq")
+        for x, y in ((a0, a1), (a1, a0)):
+            if x and all(a[0] == "param" and a[1] == k and a[2][-1:] == ("sign",) for a in x) and len(y) == 1:
+                e = next(iter(y))
+                if e[0] == "enumconst" and (e[1] or "").endswith("Sign") and e[2] == want:
+                    holds_on_true = is_eq == truth
+                    return (t.t, t.f) if holds_on_true else (t.f, t.t)
+    # parity through the opposite predicate
+    if name in ("is_even", "is_odd") and c.kind == "call" and c.name in ("is_even", "is_odd") and c.name != name and len(c.args) >= 1:
+        if _match_arg(c.args[0], lit["args"][0]):
+            return (t.f, t.t) if truth else (t.t, t.f)
     if name == "is_even" and c.kind == "cmp" and c.op in ("Eq", "Ne") and b is not None:
         for x, y, rx in ((c.a, c.b, c.ra), (c.b, c.a, c.rb)):
             if params_of(x) == {k} and not calls_of(x) and consts_of(y) <= {0, 1} and not params_of(y) and len(consts_of(y)) == 1:
@@ -489,7 +520,7 @@ def find_panic_guard(b, lits, debug_ok=False, facts=None):
             if idx == len(lits) - 1:
                 if fate(b, hold) != "panic":
                     continue
-                if not debug_ok and any(m_.startswith("debug_assert") for ms in tests.panic_macros(b, hold) for m_ in ms):
+                if not debug_ok and _debug_only_panic(b, hold):
                     continue
                 if not all(b.block_dominates(fb, r) for r in rets):
                     continue
@@ -500,6 +531,11 @@ def find_panic_guard(b, lits, debug_ok=False, facts=None):
         return None
 
     r = rec(0, None, None)
+    if r is None and len(lits) == 2:
+        # a conjunction may be tested in either order (`a && b` or, after De Morgan, `!b || !a`)
+        lits = [lits[1], lits[0]]
+        r = rec(0, None, None)
+        lits = [lits[1], lits[0]]
     if r is None:
         return False, "no branch testing %s whose outcome leads only to a (non-debug) panic and which dominates every return" % (lits,), None
     return True, "", r
@@ -610,7 +646,7 @@ def radix_summary(facts, b, memo, stack=()):
             hold, other = m
             if fate(b, other) != "panic":
                 continue
-            if any(m_.startswith("debug_assert") for ms in tests.panic_macros(b, other) for m_ in ms):
+            if _debug_only_panic(b, other):
                 continue
             if isl:
                 lo, lo_edge = bound, (t.bb, hold)
@@ -742,14 +778,14 @@ def check_underflow_asserts(ctx, res, config="all"):
                         if l is not None and _defs_include_call(b, l, borrow_src):
                             fail_t = t.f if c.op == "Eq" else t.t
                             pass_t = t.t if c.op == "Eq" else t.f
-                            if fate(b, fail_t) == "panic" and not any(m.startswith("debug_assert") for ms in tests.panic_macros(b, fail_t) for m in ms):
+                            if fate(b, fail_t) == "panic" and not _debug_only_panic(b, fail_t):
                                 if all(b.edge_dominates((t.bb, pass_t), r) for r in rets):
                                     got_borrow = True
-            # b_hi.iter().all(|x| *x == 0), failing -> panic
-            if c.kind == "call" and c.name == "all":
+            # b_hi.iter().all(|x| *x == 0), failing -> panic   (or its De Morgan twin: any(|x| *x != 0) holding -> panic)
+            if c.kind == "call" and c.name in ("all", "any"):
                 # iterator derived from the subtrahend's high part: parameter 2 for sub2 (b), parameter 2 for sub2rev (b is minuend there!)
-                fail_t, pass_t = t.f, t.t
-                if fate(b, fail_t) == "panic" and not any(m.startswith("debug_assert") for ms in tests.panic_macros(b, fail_t) for m in ms):
+                fail_t, pass_t = (t.f, t.t) if c.name == "all" else (t.t, t.f)
+                if fate(b, fail_t) == "panic" and not _debug_only_panic(b, fail_t):
                     if all(b.edge_dominates((t.bb, pass_t), r) for r in rets):
                         # which operand's high part?  split_at(.).1 of a param
                         a0 = c.args[0]
@@ -785,7 +821,7 @@ def check_underflow_asserts(ctx, res, config="all"):
                 if "__add2" in calls_of(x) and consts_of(y) == {0} and not calls_of(y):
                     fail_t = t.f if c.op == "Eq" else t.t
                     pass_t = t.t if c.op == "Eq" else t.f
-                    if fate(b, fail_t) == "panic" and not any(m.startswith("debug_assert") for ms in tests.panic_macros(b, fail_t) for m in ms):
+                    if fate(b, fail_t) == "panic" and not _debug_only_panic(b, fail_t):
                         # every path from a call of __add2 to a return takes the passing edge of this test
                         cs = [i for i, tt in b.calls() if callee(tt) == "biguint::addition::__add2" and i in b.live_blocks()]
                         if cs and all(not (set(rets) & b.reachable(i, without_edge=(t.bb, pass_t))) for i in cs):
@@ -1579,8 +1615,13 @@ def check_underflow_check_sees_all_digits(ctx, res, config="all"):
                     if "RangeTo<" in full or "ops::Range<" in full or "RangeInclusive" in full or "RangeToInclusive" in full:
                         # stripping high *zero* digits (range end = rposition of the last non-zero digit) loses nothing;
                         # a cut at another vector's length does
-                        ra = Atoms(b).of_operand(cal["args"][1])
+                        at_ = Atoms(b)
+                        ra = at_.of_operand(cal["args"][1])
                         if "rposition" in calls_of(ra) and "len" not in calls_of(ra):
+                            continue
+                        # the cut is computed from the cut vector's own digits (its length minus a count of its own high zeros)
+                        own = params_of(at_.of_operand(cal["args"][0]))
+                        if own and params_of(ra) <= own and (calls_of(ra) & {"rposition", "take_while", "count", "position", "skip_while"}):
                             continue
                         bad = full
             if bad:
@@ -1885,6 +1926,17 @@ def check_float_guess_guard(ctx, res, config="all"):
                 if len(ds) == 1 and ds[0][0] == "assign" and ds[0][3]["rv"]["k"] == "discriminant":
                     continue
                 other = True
+            if not finite and any(a[0] == "call" and a[1] == "filter" for a in atoms):
+                # `to_f64().filter(|f| f.is_finite())`: the float that comes out of the Option is finite by construction
+                for j, tt in b.calls():
+                    if callee_name(tt) == "filter" and j in live and len(tt["args"]) == 2 and b.block_dominates(j, i):
+                        cl = core.op_local(tt["args"][1])
+                        for d in b.defs().get(cl, []) if cl is not None else []:
+                            if d[0] == "assign" and d[3]["rv"]["k"] == "aggregate" and d[3]["rv"].get("akind") == "closure":
+                                cb = facts.body(d[3]["rv"]["closure"])
+                                if cb is not None and any(callee_name(t2) == "is_finite" for j2, t2 in cb.calls()):
+                                    rets_ = [s_ for j2, si2, s_ in cb.stmts() if s_["k"] == "assign" and s_["place"]["local"] == 0]
+                                    finite = True
             key = "%s|from_f64#%d" % (b.path, sum(1 for j, tt in b.calls() if j < i and callee_name(tt) == "from_f64"))
             if finite:
                 res.ok("R3-float-guess-finite", key, {"guard": "is_finite()"})
